@@ -23,37 +23,48 @@ LEVEL = "proof"
 ENGINES = ["lean-model", "kopfsim"]
 TIE = ("S: step refinement — every worker iteration (and idle retirement) of closed-loop simulations replayed through the "
        "Lean worker/processor step; the model's (expected, deadline) must be the consistency_time the next real iteration gets")
-LEVEL_TEXT = ("Lean theorems for ALL step lists of one object's stream (any event versions, arrival times, stream pressure, wake-ups, "
-              "pending patches, raw-handler durations, sleep lateness, idle retirements of the worker, any consistency_timeout incl. 0 "
-              "and negative): barrier (change handlers run only after the last own patch's version was dequeued after that patch, or "
-              ">= T after the server applied it), independent_of_foreign_count (same invariant, any number of foreign events/"
-              "retirements in between), barrier_every_patch (every earlier own patch, not only the last), barrier_view (with per-object stream order: view >= patch, or timeout), not_delayed (indexing/"
-              "raw-event/spawning stages precede the barrier, do not depend on the worker state, and a new arrival ends the sleep at once), "
-              "interrupted_never_achieved (a sleep ended early by an arrival or by the exiting watcher's pressure+EOS holds handlers back), "
-              "disabled (T=0: nothing expected, never sleeps, held only for a pending patch), deadline_monotone, retire_after_deadline, "
-              "never_arrives. All full theorems (no _partial). The model is hand-written; it is tied to the code by replaying "
-              "every iteration of seeded whole-operator simulations; the wf hypotheses of the theorems are checked on the real traces. "
-              "Scope: the barrier covers PATCHes issued by the object's worker (what the anchors name); result patches of daemons/"
-              "timers are not tracked by the mechanism (measured, see histogram background_patch).")
+LEVEL_TEXT = ("Lean theorems for ALL step lists of one object's stream (any event versions, arrival times, stream pressure, wake-ups incl. "
+              "the exiting watcher's, pending patches, raw-handler durations, sleep lateness, idle retirements of the worker, PATCHes by "
+              "the object's daemon/timer tasks, any consistency_timeout incl. 0 and negative). The FULL barrier clause (every framework "
+              "patch) is false of the code: barrier_background_witness + finding C07-F1 (daemon/timer result patches are never reported "
+              "to the worker), replayed on the real code on every run (corpus/C07/F1.json). Proved under the exact guard 'the PATCH was "
+              "issued by the object's worker': barrier_partial (change handlers run only after the last own patch's version was dequeued "
+              "after that patch, or >= T after the server applied it; any number of foreign events, background patches and retirements in "
+              "between), barrier_every_patch_partial (every earlier worker patch), barrier_view_partial (with per-object stream order: view "
+              ">= patch, or timeout). Full theorems: not_delayed (for ANY stage order with the barrier after a block of stages, that block's "
+              "log and clock are independent of consistency_time and stay a prefix of the final log; false for a sleep-first order: "
+              "barrier_first_delays_witness), not_delayed_kopf (kopf's order: indexing/raw-event handlers at the dequeue, spawning right "
+              "after them, sleep only then, a new arrival ends the sleep at once), interrupted_never_achieved, disabled (T=0), "
+              "deadline_monotone, retire_after_deadline, never_arrives; noop_write_stall_witness documents a liveness quirk outside C07's "
+              "clauses. 'Daemons and timers keep running during the barrier' (separate tasks) is covered by the oracle only (timer ticks "
+              "on schedule during barrier sleeps, daemon spawned in the first iteration). The model is hand-written; it is tied to the code "
+              "by replaying every iteration of seeded whole-operator simulations (incl. when the low-level stages really started and the "
+              "background patches in between); the wf hypotheses of the theorems are checked on the real traces.")
 THEOREMS = [("Kopf.Props.C07", "Kopf.C07." + n) for n in [
-    "barrier", "independent_of_foreign_count", "barrier_every_patch", "barrier_view", "not_delayed", "disabled", "deadline_monotone",
-    "retire_after_deadline", "never_arrives", "interrupted_never_achieved"]]
+    "barrier_partial", "barrier_background_witness", "barrier_every_patch_partial", "barrier_view_partial",
+    "not_delayed", "not_delayed_kopf", "barrier_first_delays_witness", "interrupted_never_achieved", "disabled",
+    "deadline_monotone", "retire_after_deadline", "never_arrives", "noop_write_stall_witness"]]
 RULE = ("seeded whole-operator scenarios: T in {0, 0.25, 1, 5} s; request latency 1-64 ticks, response latency 0-48 ticks; echo delay of "
         "own writes in {0, < T, = T after the patch, = exactly the worker's deadline, > T}; foreign-event delay and jitter; 0-5 foreign "
         "edits before and 0-5 after each chosen own write (reactive offsets), slips right before a PATCH (422 -> remaining patch); create/"
         "update/delete handlers with temporary errors (several cycles), sleeping handlers; optional event handler (plain/slow/result-"
-        "returning), index, daemon, timer (plain/result-returning); idle_timeout in {0.25, 1, 5}; optional deletion. One case = one "
+        "returning incl. idempotent results = no-op writes), index, daemon, timer (plain/result-returning = background patches); idle_timeout in {0.25, 1, 5}; optional deletion. One case = one "
         "worker iteration; distinct & non-trivial = distinct abstracted (deadline set?, reset by arrival?, slept/woken/timed-out, "
         "held/entered, pending patch, pressure, patched?) tuples where a deadline was set or a patch was made")
 TRUSTED = ["harness/sim (virtual-time loop, fake API server, scripted handlers) + harness/props/sim_c07.py (per-event echo delay, "
            "FIFO delivery within a watch, response latency, attribute-level observation of worker/processor/aiotime)",
            "asyncio.wait_for / Event contract behind aiotime.sleep: None only after the full delay",
            "per-object order of the watch stream (Kubernetes' guarantee; C01/C19) for barrier_view"]
-ASSUMPTIONS = ["no operator restarts / watch-stream breaks inside C07 scenarios (a fresh watcher re-lists the current state; C19's subject)",
+ASSUMPTIONS = ["the barrier theorems are about PATCHes issued by the object's worker; for daemon/timer patches the clause is false (C07-F1)",
+               "daemons/timers not being delayed by the barrier is checked by the oracle on the simulations, not proved (they are separate tasks outside the model)",
+               "no operator restarts / watch-stream breaks inside C07 scenarios (a fresh watcher re-lists the current state; C19's subject)",
                "times are multiples of 1/64 s; a timed-out sleep ends exactly at its deadline under virtual time (the theorems allow any lateness)",
                "GONE causes have no handlers (C05); `handlers` in the model excludes them"]
 
 CHANGE_KINDS = ("create", "update", "delete", "resume")
+F1_SIG = {"site": "daemons._runner/application.apply vs queueing.worker",
+          "shape": "change handler on a view older than a daemon/timer PATCH of the same object before the timeout: "
+                   "background patches are not reported to the worker"}
 VER_RE = re.compile(r"(\d+)(~which~never~arrives)?")
 
 
@@ -163,6 +174,14 @@ def gen_scenario(rng: Any, i: int) -> dict:
     slips = []
     if rng.random() < 0.25:
         slips.append({"nth": rng.choice([1, 1, 2, 3]), "op": ["edit", "a", {"spec": {"x": 500 + i % 7}}]})
+    if rng.random() < 0.2:
+        # a handler adds transformation functions to the patch (JSON patch guarded by the version); a foreign write
+        # slips in right before one of those requests: 422, the functions are carried into the next iteration
+        h = rng.choice([x for x in handlers if x["kind"] in ("create", "update", "event")])
+        sc_old = list(h.get("script", []))
+        h["script"] = [["fn", f"L{k}", sc_old[k] if k < len(sc_old) else h.get("default", "ok")] for k in range(max(len(sc_old), rng.choice([1, 2, 4])))]
+        for _ in range(rng.choice([1, 1, 2])):
+            slips.append({"nth": rng.choice([1, 2, 2, 3, 4]), "ctype": "json-patch", "op": ["edit", "a", {"spec": {"x": 600 + i % 5}}]})
     horizon = max(T, own / 64.0, 1.0)
     t_quiet = t_last + 10 * horizon + 6
     if rng.random() < 0.35:
@@ -228,11 +247,18 @@ def oracle(ctx: Ctx, sc: dict, tr: dict) -> None:
                         {"site": "queueing.worker/process_resource_causes", "shape": "change handler on a view older than the own last patch before the timeout"})
             else:
                 ctx.count("view", "no own patch yet")
+            # the same clause for the framework's OTHER patches of this object: results/progress written by its
+            # daemon and timer tasks (`daemons._runner → application.apply`). The worker is never told their versions.
             bg = [p for p in o["background"] if float(p["t_applied"]) <= call["t"]]
             if bg:
                 lastb = bg[-1]
                 if view < int(lastb["applied_rv"]) and call["t"] < float(lastb["t_applied"]) + T:
-                    ctx.count("background_patch", "change handler on a view older than a daemon/timer patch (untracked by the worker)")
+                    ctx.count("background_patch", "change handler on a view older than a daemon/timer patch before the timeout (C07-F1)")
+                    ctx.oracle_fail(
+                        f"change handler {call['id']} ran at t={call['t']} on resourceVersion {view}, older than the PATCH result "
+                        f"{lastb['applied_rv']} of a daemon/timer task of the same object applied at t={lastb['t_applied']}; only "
+                        f"{call['t'] - float(lastb['t_applied'])} s < consistency_timeout={T} elapsed",
+                        {"scenario": sc, "call": call, "patch": lastb}, F1_SIG)
                 else:
                     ctx.count("background_patch", "view not older / timeout elapsed")
         # raw-event handlers and indexers are served in every iteration, at the dequeue instant
@@ -327,6 +353,16 @@ def abstract(sc: dict, tr: dict) -> list[dict]:
         pos = 0
         idle = None
         truncated = False
+        bgq = sorted(o["background"], key=lambda p: float(p["t_applied"]))
+
+        def flush_background(before: float | None) -> None:
+            # PATCHes by the object's daemon/timer tasks: steps the worker does not see
+            while bgq and (before is None or float(bgq[0]["t_applied"]) < before):
+                b = bgq.pop(0)
+                steps.append({"background": [parse_ver(b["applied_rv"]), ticks(float(b["t_applied"]))]})
+                impl.append({"background": True})
+                where.append({"uid": uid, "background": b["applied_rv"]})
+
         for li, life in enumerate(o["lives"]):
             idle = ticks(float(life["idle_timeout"]))
             gets = [g for g in life["gets"] if g[1] != "EOS"]
@@ -354,8 +390,11 @@ def abstract(sc: dict, tr: dict) -> list[dict]:
                     break
                 if c7["t_mid"] is None:
                     raise TraceShape("the finalizer decision point was not observed")
+                flush_background(c["loop_t0"])
                 now = ticks(c["loop_t0"])
                 tmid = ticks(c7["t_mid"])
+                t_ix = [x["t"] for x in o["calls"] if x["kind"] == "index" and x["rv"] == c["rv"] and c["t0"] <= x["t"] <= c["t1"]]
+                t_ev = [x["t"] for x in o["calls"] if x["kind"] == "event" and x["rv"] == c["rv"] and c["t0"] <= x["t"] <= c["t1"]]
                 must_block = any(c7["reqfin"])
                 add = must_block and not c7["blocked"] and not c7["ongoing"]
                 remove = (not must_block) and c7["blocked"]
@@ -382,10 +421,14 @@ def abstract(sc: dict, tr: dict) -> list[dict]:
                              "slept": None if s is None else [ticks(s["t1"]), bool(s["timed_out"])],
                              "entered": ticks(c7["pcc_t"]), "held": bool(required and not c7["matched"]),
                              "first_handler": ticks(mine[0]["t"]) if mine else None,
+                             "t_index": ticks(min(t_ix)) if t_ix else None, "t_event": ticks(min(t_ev)) if t_ev else None,
+                             "t_spawn": tmid,
                              "eos_wake": bool(s is not None and not s["timed_out"] and nxt_items and nxt_items[0][1] == "EOS")})
                 where.append({"uid": uid, "cycle": c["i"]})
             if truncated:
                 break
+        if not truncated:
+            flush_background(None)
         if steps:
             runs.append({"req": ["C07.run", {"T": T, "idle": idle if idle is not None else 0, "clock": 0, "steps": steps}],
                          "impl": impl, "where": where, "uid": uid})
@@ -507,6 +550,12 @@ def evaluate(ctx: Ctx, scenarios: list[dict], results: list[dict], tie: bool = T
                             {"ok": True}, {"ok": m["ok"]}, rep)
                 prev_deadline = m["after"]["deadline"]
                 continue
+            if "background" in st:
+                ctx.case(key={"background": True, "expecting": prev_deadline is not None}, nontrivial=True)
+                ctx.count("step", "background patch (worker expecting)" if prev_deadline is not None else "background patch")
+                ctx.compare("C07 background patch: the worker's locals are untouched",
+                            {"ok": True, "deadline": prev_deadline}, {"ok": m["ok"], "deadline": m["after"]["deadline"]}, rep)
+                continue
             o = m["outcome"]
             m["_prev_deadline"] = prev_deadline
             shape = _shape(st["event"], m)
@@ -529,8 +578,17 @@ def evaluate(ctx: Ctx, scenarios: list[dict], results: list[dict], tie: bool = T
                 e = st["event"]
                 ctx.count("patched", "no-op write: the returned version was dequeued already (awaited until the timeout)"
                           if e["ver"] is not None and e["patched"][0] <= e["ver"][0] else "new version")
-            model = {"given": o["given"], "slept": o["slept"], "entered": o["entered"], "held": o["held"], "ok": m["ok"]}
-            real = {"given": impl["given"], "slept": impl["slept"], "entered": impl["entered"], "held": impl["held"], "ok": True}
+            mlow = dict((a, b) for a, b in o["low"])
+            # when the low-level stages really started (observable only where such handlers are registered)
+            rlow = {"indexing": impl["t_index"] if impl["t_index"] is not None else mlow.get("indexing"),
+                    "watching": impl["t_event"] if impl["t_event"] is not None else mlow.get("watching"),
+                    "spawning": impl["t_spawn"]}
+            if impl["t_index"] is not None or impl["t_event"] is not None:
+                ctx.count("low_level_stages", "timed against the model" + (" (deadline set)" if shape["given"] else ""))
+            model = {"given": o["given"], "slept": o["slept"], "entered": o["entered"], "held": o["held"], "ok": m["ok"],
+                     "low": mlow, "order": [a for a, _ in o["low"]]}
+            real = {"given": impl["given"], "slept": impl["slept"], "entered": impl["entered"], "held": impl["held"], "ok": True,
+                    "low": rlow, "order": ["indexing", "watching", "spawning"]}
             ctx.compare("C07 worker iteration (consistency_time given, barrier sleep, decision)", real, model, rep)
             if impl["first_handler"] is not None:
                 ok = o["handlers"] is not None and o["handlers"] <= impl["first_handler"]
